@@ -7,7 +7,8 @@
 -- a coefficient list; identities are stated in `F[X]` (they imply the evaluation identities at every
 -- point, also over finite fields where equality of values does not imply equality of polynomials).
 -- `Total O` = every field inversion returns (no `hang`); it is only assumed where the code inverts.
-import WinterProofs.Lemmas.C20Interp
+import WinterProofs.Lemmas.C20Batch
+import WinterProofs.Lemmas.C20Div
 import Mathlib.Algebra.Field.Rat
 
 namespace WinterProofs.C20
@@ -97,6 +98,34 @@ theorem remove_leading_zeros_spec (L : Lawful O v) (p : List α) :
 
 example : degreeOf OQ [] = 0 ∧ degreeOf OQ [0, 0] = 0 ∧ degreeOf OQ [1, 2, 0] = 1 ∧
     removeLeadingZeros OQ [1, 2, 0, 0] = [1, 2] ∧ removeLeadingZeros OQ [0, 0] = [] := by decide +kernel
+
+-- ================================================================================ long division
+
+/-- `div(a, b)` (as repaired by fix cc9bed5 for the empty dividend) under exactly the guards the code
+    asserts — `degree_of(b) ≤ degree_of(a)` and `b` not the zero polynomial (empty, or all-zero) —
+    and with returning field inversions: no panic, the quotient has `deg a − deg b + 1` coefficients
+    and `a = q·b + r` with `deg r < deg b` -/
+theorem div_correct (L : Lawful O v) (hT : Total O) (a b : List α)
+    (hdeg : degreeOf O b ≤ degreeOf O a) (hb : toPoly v b ≠ 0) :
+    ∃ q, div O a b = .ok q ∧ q.length = degreeOf O a - degreeOf O b + 1 ∧
+      ∃ r : F[X], toPoly v a = toPoly v q * toPoly v b + r ∧ r.degree < (toPoly v b).degree :=
+  div_spec L hT a b hdeg hb
+
+/-- `div` panics exactly when one of the asserted guards fails -/
+theorem div_panics_iff (L : Lawful O v) (hT : Total O) (a b : List α) :
+    (∃ s, div O a b = .panic s) ↔ (degreeOf O a < degreeOf O b ∨ toPoly v b = 0) :=
+  div_panic_iff L hT a b
+
+example : degreeOf OQ [2, 0, 1] ≤ degreeOf OQ [2, 2, 1, 1] := by decide +kernel
+example : toPoly (id : ℚ → ℚ) [2, 0, 1] ≠ 0 := by
+  intro h
+  have := congrArg (fun p => p.coeff 0) h
+  simp [toPoly] at this
+example : div OQ [2, 2, 1, 1] [2, 0, 1] = .ok [1, 1] ∧ div OQ [1, 0, 0, 1, 0] [1, 1, 0] = .ok [1, -1, 1] := by
+  decide +kernel
+/-- the empty dividend (on which the pinned tree indexed out of bounds) and the documented panics -/
+example : div OQ [] [3] = .ok [0] ∧ (div OQ [1] []).isPanic ∧ (div OQ [1] [0]).isPanic ∧
+    (div OQ [1] [0, 1]).isPanic ∧ (div OQ [] []).isPanic := by decide +kernel
 
 -- ================================================================================ synthetic division
 
@@ -209,6 +238,36 @@ theorem interpolate_no_panic (L : Lawful O v) (hT : Total O) (xs ys : List α) (
 theorem interpolate_panics (xs ys : List α) (rlz : Bool) (h : xs.length ≠ ys.length) :
     ∃ s, interpolate O xs ys rlz = .panic s :=
   ⟨"number of X and Y coordinates must be the same", by simp [interpolate, h]⟩
+
+/-- `interpolate_batch::<E, N>` (as repaired by fix c99bda7 for `N = 0`) on equally many X and Y
+    batches of `N` points: no panic, one polynomial with `N` coefficients (degree `< N`) per batch, and
+    on every batch with pairwise distinct X coordinates interpolation inverts evaluation — batches
+    with duplicate X coordinates do not affect the other batches although all inversions are done by
+    one batch inversion -/
+theorem interpolate_batch_spec (L : Lawful O v) (hT : Total O) (N : Nat) (xss yss : List (List α))
+    (hlen : xss.length = yss.length)
+    (hx : ∀ b ∈ xss, b.length = N) (hy : ∀ b ∈ yss, b.length = N) :
+    ∃ polys, interpolateBatch O N xss yss = .ok polys ∧ polys.length = xss.length ∧
+      (∀ p ∈ polys, p.length = N) ∧
+      ∀ i (hi : i < xss.length) (hp : i < polys.length), (xss[i].map v).Nodup →
+        ∀ j (hjx : j < xss[i].length) (hjy : j < (yss[i]'(hlen ▸ hi)).length),
+          v (eval O polys[i] xss[i][j]) = v (yss[i]'(hlen ▸ hi))[j] := by
+  obtain ⟨polys, e, l, hl, h⟩ := interpolateBatch_spec L hT N xss yss hlen hx hy
+  exact ⟨polys, e, l, hl, fun i hi hp hnd j hjx hjy => by rw [v_eval L]; exact h i hi hp hnd j hjx hjy⟩
+
+/-- the documented panic (debug build): different numbers of batches -/
+theorem interpolate_batch_panics (N : Nat) (xss yss : List (List α)) (h : xss.length ≠ yss.length) :
+    ∃ s, interpolateBatch O N xss yss = .panic s :=
+  ⟨"number of X coordinate batches and Y coordinate batches must be the same",
+    by simp [interpolateBatch, h]⟩
+
+example : interpolateBatch OQ 2 [[0, 1], [2, 3]] [[1, 3], [5, 7]] = .ok [[1, 2], [1, 2]] ∧
+    interpolateBatch OQ 3 [[0, 1, 2]] [[1, 3, 7]] = .ok [[1, 1, 1]] ∧
+    interpolateBatch OQ 0 [[], []] [[], []] = .ok [[], []] ∧
+    interpolateBatch OQ 1 [] [] = .ok [] := by decide +kernel
+/-- a batch with a duplicate X coordinate does not disturb its neighbour -/
+example : interpolateBatch OQ 2 [[1, 1], [2, 3]] [[1, 3], [5, 7]] = .ok [[0, 0], [1, 2]] := by
+  decide +kernel
 
 -- ================================================================================ power series
 
